@@ -224,11 +224,8 @@ crate::proof!(nest_merge_tt_k1_r3_drop, 7, {
     let s = run_stream::<NestMergeTT<1>>(3, true, M);
     crate::fam_stream::witness_drop(&s);
 });
-crate::proof!(nest_merge_ta_k1_r4, 7, {
-    deep();
-    let s = run_stream::<NestMergeTA<1>>(4, false, M);
-    crate::fam_stream::witness(&s);
-});
+// `nest_merge_ta_k1_r4` (`NestMergeTA`, array merge inside a tuple merge, R = 4): 1.2 M program steps, out of memory at
+// 28 GB - not registered; the tuple-in-tuple and tuple-in-array nests are.
 crate::proof!(nest_merge_a1t_k2_r5, 7, {
     deep();
     let s = run_stream::<NestMergeA1T<2>>(5, false, M);
